@@ -187,6 +187,10 @@ fn command_go(
 
     let mut time = None;
 
+    // Raise the flag before the timer thread exists: a timer that fires at once
+    // must find a flag it can clear
+    search_is_running.store(true, Relaxed);
+
     if wtime.is_some() && btime.is_some() && winc.is_some() && binc.is_some() {
         let wtime = wtime.unwrap();
         let btime = btime.unwrap();
@@ -240,7 +244,6 @@ fn command_go(
     crate::verif::sched("before_raise");
 
     let thread = thread::spawn({
-        search_is_running.store(true, Relaxed);
         let data_mutex = data_mutex.clone();
         let search_is_running = search_is_running.clone();
         move || {
